@@ -11,29 +11,30 @@ FIX={ # commit -> properties whose checks must alarm
  "282cb9d":["C02"], "089d440":["C08"], "dddc233":["C12"], "ab825ec":["C15"], "78e2e7e":["C17"], "15f27c4":["C17"],
  "9547e31":["C17"], "c9d48a9":["C06"],
 }
+REPO=os.environ.get("SEED_REPO",REPO)
 only=sys.argv[1:]
 res={}
 for c,props in FIX.items():
     if only and c not in only: continue
-    rc,out=sh("git status --porcelain","/repo"); assert out.strip()=="", out
-    rc,out=sh(f"git diff {c} {c}~1 -- . ':(exclude)*zz_contracts_verif.go' | git apply --3way 2>&1 || git diff {c} {c}~1 -- . ':(exclude)*zz_contracts_verif.go' | git apply","/repo")
-    rc2,st=sh("git status --porcelain","/repo")
+    rc,out=sh("git status --porcelain",REPO); assert out.strip()=="", out
+    rc,out=sh(f"git diff {c} {c}~1 -- . ':(exclude)*zz_contracts_verif.go' | git apply --3way 2>&1 || git diff {c} {c}~1 -- . ':(exclude)*zz_contracts_verif.go' | git apply",REPO)
+    rc2,st=sh("git status --porcelain",REPO)
     if rc!=0 or "UU" in st:
-        sh("git checkout -- . && git reset -q","/repo")
+        sh("git checkout -- . && git reset -q",REPO)
         res[c]={"status":"revert does not apply cleanly to HEAD (later changes touch the same lines)"}; print(c,res[c]); continue
-    rcb,outb=sh("GOFLAGS=-mod=mod GOPROXY=off GOTOOLCHAIN=local go build ./...","/repo")
+    rcb,outb=sh("GOFLAGS=-mod=mod GOPROXY=off GOTOOLCHAIN=local go build ./...",REPO)
     if rcb!=0:
-        sh("git checkout -- . && git reset -q","/repo"); res[c]={"status":"reverted tree does not build"}; print(c,res[c]); continue
+        sh("git checkout -- . && git reset -q",REPO); res[c]={"status":"reverted tree does not build"}; print(c,res[c]); continue
     for p in props:
         t=time.time()
         try:
-            rc,out=sh(f"./check --no-evidence {p}","/verif")
+            rc,out=sh(f"./check --no-evidence --repo {REPO} {p}","/verif")
         finally:
             pass
         viol=[l for l in out.splitlines() if l.startswith("VIOLATION")]
         res[c+":"+p]={"exit":rc,"violations":len(viol),"first":(viol[0][:240] if viol else ""),"s":round(time.time()-t,1)}
         print(c,p,json.dumps(res[c+":"+p])[:330],flush=True)
-    sh("git checkout -- . && git reset -q","/repo")
-    rc,out=sh("git status --porcelain","/repo"); assert out.strip()=="", out
+    sh("git checkout -- . && git reset -q",REPO)
+    rc,out=sh("git status --porcelain",REPO); assert out.strip()=="", out
 os.makedirs("/verif/out",exist_ok=True)
 json.dump(res,open("/verif/out/selftest_reverts.json","w"),indent=1)
